@@ -5,15 +5,18 @@ BYTES (hello, features reply with ports {1,2,3}, barrier reply); everything afte
 through Connection.read() as bytes as well.
 
 Part 1 (port view): explicit-state BFS (mc.engine.bfs, replay based) over port-status histories
-{add, modify} x 4 port numbers x DESCRIPTIONS + delete x 4 port numbers.  Canonical state = the real
-PortCollection delta layer (_ports, _masks), the real original collection, and the reference dict.
+{add, modify} x 4 port numbers x DESCRIPTIONS + delete x 4 port numbers + "read the whole view" (reads
+may populate caches, so they are operations), delivered after the handshake, deferred during it, or in
+the same read() as the barrier reply that completes it.  Canonical state = every attribute of the real
+PortCollection objects (sets, masks, any index or cache, aliasing between them) and the reference dict.
 The search runs until the frontier is EMPTY (closure), so the verdict covers histories of any
 length.  In every state the whole mapping API of connection.ports and connection.original_ports
 is compared with a plain dict.  Read-only oracle failures do not stop the expansion (they cannot
 change the state), so the closure is that of the real object even where a defect is present.
 
 Part 2 (multipart statistics): every weak composition of n entries into 1..6 parts for the four
-multipart-capable stats types, alone, coalesced into one read, interleaved with other message
+multipart-capable stats types, alone, coalesced into one read, sharing a read with the barrier reply
+that completes the handshake, interleaved with other message
 types, preceded / followed by a second request's reply, with a second request's complete reply in
 the middle (aborted shape A1 B A2) and with a never-finished first reply (A1.. B).  Reference:
 the entry dicts the wire bytes were encoded from (mc/refs/ofwire_stats.py).
@@ -52,13 +55,38 @@ ALL_HW = sorted(set(desc_fields(n, v)[2] for n in NUMS for v in range(N_DESC))) 
 ALL_NUMS = [0, 1, 2, 3, 4, 5, W.OFPP_LOCAL]
 
 
-def port_ops (ndesc):
+def port_ops (ndesc, mode="up"):
   o = []
   for n in NUMS:
     for v in range(ndesc):
       o.append(("add", n, v)); o.append(("mod", n, v))
     o.append(("del", n))
+  # reading the whole view is an operation of its own: an implementation may keep caches that reads populate, so
+  # "notification, read, notification" and "notification, notification" can be different histories
+  if mode == "up": o.append(("read",))
   return o
+
+
+def _canon (x, memo, depth=0):
+  """Canonical rendering of EVERYTHING reachable from a PortCollection's attributes (whatever they are called),
+  including aliasing between containers (ordinal of first visit), so that hidden state such as an index or a
+  cache is part of the state key."""
+  if x is None or isinstance(x, (int, str, bytes, bool, float)): return x
+  if hasattr(x, "port_no") and hasattr(x, "hw_addr"): return ("port",) + _real_port(x)
+  if hasattr(x, "toRaw"): return ("addr", x.toRaw())
+  if depth > 8: return ("deep", type(x).__name__)
+  if isinstance(x, tuple): return ("tuple", [_canon(e, memo, depth + 1) for e in x])
+  if isinstance(x, frozenset): return ("frozenset", sorted((_canon(e, memo, depth + 1) for e in x), key=repr))
+  oid = id(x)
+  if oid in memo: return ("ref", memo[oid])
+  memo[oid] = n = len(memo)
+  if isinstance(x, dict):
+    return ("dict", n, sorted(((_canon(k, memo, depth + 1), _canon(v, memo, depth + 1)) for k, v in x.items()), key=repr))
+  if isinstance(x, set): return ("set", n, sorted((_canon(e, memo, depth + 1) for e in x), key=repr))
+  if isinstance(x, list): return ("list", n, [_canon(e, memo, depth + 1) for e in x])
+  if type(x).__name__ == "PortCollection":
+    return ("coll", n, [(k, _canon(v, memo, depth + 1)) for k, v in sorted(vars(x).items())])
+  return ("obj", type(x).__name__)
 
 
 def _site (exc):
@@ -83,7 +111,9 @@ def _real_port (p):
 class PortWorld (object):
   """mode 'up': notifications arrive after the handshake completed.
      mode 'early': notifications arrive between the features reply and the barrier reply (POX defers
-     them and applies them when the handshake completes); the view is examined after the handshake."""
+     them and applies them when the handshake completes); the view is examined after the handshake.
+     mode 'same-read': the notifications follow the barrier reply that completes the handshake in the SAME
+     recv() chunk (TCP cuts the stream, not the switch): one Connection.read() sees them all."""
   def __init__ (self, mode):
     from mc.env import ControllerStack
     self.mode = mode
@@ -103,16 +133,23 @@ class PortWorld (object):
     if len(bx) != 1: raise RuntimeError("handshake: expected one barrier request, got %r" % (bx,))
     self.barrier_xid = bx[0]
     self.up = False
+    self.pending = []
     if mode == "up": self.finish()
 
   def finish (self):
     if self.up: return
-    self.cs.feed(self.i, S.barrier_reply(self.barrier_xid))
+    try:
+      self.cs.feed(self.i, S.barrier_reply(self.barrier_xid) + b"".join(self.pending))
+    except Exception as e:
+      self.bad.append(("%s:ports:read-raises:%s" % (PID, _site(e)), "Connection.read raised %r" % (e,)))
+    self.pending = []
     self.up = True
     if self.con.connect_time is None:
       raise RuntimeError("handshake did not complete")
 
   def apply (self, op):
+    if op[0] == "read":
+      self.finish(); self.check(); return
     self.xid += 1
     n = op[1]
     if op[0] == "del":
@@ -124,12 +161,20 @@ class PortWorld (object):
       m = S.port_status(self.xid, W.OFPPR_ADD if op[0] == "add" else W.OFPPR_MODIFY, desc_wire(f))
       self.ref[n] = f
     self.n_msgs += 1
+    if self.mode == "same-read" and not self.up:
+      self.pending.append(m); return
     try:
       self.cs.feed(self.i, m)
     except Exception as e:
       self.bad.append(("%s:ports:read-raises:%s" % (PID, _site(e)), "Connection.read raised %r on a port-status message" % (e,)))
 
   def key (self):
+    """Whole mutable state: every attribute of both real collections (caches included) + the reference."""
+    memo = {}
+    c = self.con
+    return (self.mode, _canon(c.ports, memo), _canon(c.original_ports, memo), sorted(self.ref.items()))
+
+  def content_key (self):
     c = self.con
     return (self.mode,
             sorted(_real_port(p) for p in c.ports._ports), sorted(c.ports._masks),
@@ -245,19 +290,20 @@ def _fmt_ref (ref):
 
 
 def make_port_expand (mode, ndesc):
-  ops = port_ops(ndesc)
+  ops = port_ops(ndesc, mode)
   def expand (h):
     w = PortWorld(mode)
     for op in h: w.apply(op)
     w.finish()
-    k0 = w.key()
+    key = w.key()                 # the state the history leads to, BEFORE this expansion's own reads
+    k0 = w.content_key()
     soft, obs = w.check()
-    k1 = w.key()
+    k1 = w.content_key()
     bad = list(w.bad)
     if k1 != k0:
-      bad.append(("%s:ports:query-changes-collection" % PID, "reading the collections changed them: %r -> %r" % (k0, k1)))
+      bad.append(("%s:ports:query-changes-collection" % PID, "reading the collections changed their content: %r -> %r" % (k0, k1)))
     out = dict(obs=digest(obs), soft=soft, history=list(h), mode=mode)
-    return dict(key=k1, ops=ops, bad=bad, out=out, replay_extra=dict(part="ports", mode=mode))
+    return dict(key=key, ops=ops, bad=bad, out=out, replay_extra=dict(part="ports", mode=mode))
   return expand
 
 
@@ -276,7 +322,7 @@ class _Collector (Report):
 
 def port_plan (cfg):
   """(delivery mode, number of descriptions per port number)"""
-  return [("up", cfg.pick(3, N_DESC)), ("early", cfg.pick(2, N_DESC))]
+  return [("up", cfg.pick(3, N_DESC)), ("early", cfg.pick(2, N_DESC)), ("same-read", cfg.pick(2, N_DESC))]
 
 
 def run_ports (cfg, rep):
@@ -310,11 +356,11 @@ def replay_ports (data):
   lines = ["mode=%s features reply reports %s" % (mode, _fmt_ref(w.orig))]
   for op in data["history"]:
     op = tuple(op); w.apply(op)
-    lines.append("port-status %r -> reference %s" % (op, _fmt_ref(w.ref)))
+    lines.append(("read the whole view%.0s" if op[0] == "read" else "port-status %r -> reference %s") % (op, _fmt_ref(w.ref)))
   w.finish()
-  k0 = w.key()
+  k0 = w.content_key()
   soft, obs = w.check()
-  if w.key() != k0:
+  if w.content_key() != k0:
     w.bad.append(("%s:ports:query-changes-collection" % PID, "reading the collections changed them"))
   c = w.con
   lines.append("real ports._ports=%r _masks=%r" % (sorted(_real_port(p) for p in c.ports._ports), sorted(c.ports._masks)))
@@ -447,6 +493,9 @@ def build (sc):
   reqs = {"A": a}
   if fam == "single":
     steps = ap
+  elif fam == "hs":               # the handshake-completing barrier reply and A's first j parts arrive in ONE read
+    j = sc[3]
+    steps = [([None] + [m for ms, _ in ap[:j] for m in ms], [("O", "handshake-barrier")] + [t for _, ts in ap[:j] for t in ts])] + ap[j:]
   elif fam == "coalesced":
     steps = [([m for ms, _ in ap for m in ms], [t for _, ts in ap for t in ts])]
   elif fam == "inter":            # one other message at position pos (0 = before the first part)
@@ -501,8 +550,10 @@ def run_scenario (sc):
   cs.feed(i, S.features_reply(2, DPID, [desc_wire(desc_fields(n, 0)) for n in ORIG]))
   msgs, _ = W.split(cs.take_tx(i))
   bx = [W.parse_hdr(m)[3] for m in msgs if m[1] == W.BARRIER_REQUEST]
-  cs.feed(i, S.barrier_reply(bx[0]))
-  if con.connect_time is None: raise RuntimeError("handshake did not complete")
+  hs = sc[0] == "hs"              # the barrier reply that completes the handshake travels with the first step
+  if not hs:
+    cs.feed(i, S.barrier_reply(bx[0]))
+    if con.connect_time is None: raise RuntimeError("handshake did not complete")
   # connection-level listeners (the nexus-level ones are ControllerStack's)
   conev = []
   for name in STATS_EVENTS:
@@ -525,11 +576,13 @@ def run_scenario (sc):
 
   for msgs, tags in steps:
     n0 = len(cs.events); c0 = len(conev); r0 = len(raised)
+    msgs = [S.barrier_reply(bx[0]) if m is None else m for m in msgs]
     try:
       cs.feed(i, b"".join(msgs))
     except Exception as e:
       fail("read-raises:%s" % _site(e), "Connection.read raised %r" % (e,))
       break
+    if con.connect_time is None: raise RuntimeError("handshake did not complete")
     n_msgs += len(msgs)
     new = [(nm, e) for nm, idx, e in cs.events[n0:] if nm in STATS_EVENTS]
     newc = conev[c0:]
@@ -540,8 +593,9 @@ def run_scenario (sc):
       fail("connection-level-events-differ", "nexus raised %r, the connection raised %r" % ([nm for nm, e in new], [nm for nm, e in newc]))
     if not finals:
       if new:
-        what = "a non-final part (MORE set)" if tags[0][0] == "S" else "a %s message" % tags[0][1]
-        fail("fires-before-final-part" if tags[0][0] == "S" else "fires-on-unrelated-message",
+        anyS = any(t[0] == "S" for t in tags)
+        what = "a non-final part (MORE set)" if anyS else "a %s message" % tags[0][1]
+        fail("fires-before-final-part" if anyS else "fires-on-unrelated-message",
              "%s raised after %s" % ([nm for nm, e in new], what))
       continue
     rid = finals[0]; r = reqs[rid]; x = exp[rid]
@@ -602,6 +656,8 @@ def scenarios (cfg):
         for comp in weak_compositions(n, k):
           out.append(("single", typ, comp))
           if k > 1: out.append(("coalesced", typ, comp))
+          for j in (range(1, k + 1) if not cfg.quick else sorted(set((1, k)))):
+            out.append(("hs", typ, comp, j))
           for pos in range(k + 1):
             for kind in OTHERS: out.append(("inter", typ, comp, pos, kind))
           for rot in range(len(OTHERS)): out.append(("inter-all", typ, comp, rot))
@@ -612,7 +668,7 @@ def scenarios (cfg):
               out.append(("abort", typ, comp, v, gap)); out.append(("trunc", typ, comp, v, gap))
   # DESC and AGGREGATE replies are always a single part: alone and with another message around them
   for typ in (W.OFPST_DESC, W.OFPST_AGGREGATE):
-    out.append(("single", typ, (1,)))
+    out.append(("single", typ, (1,))); out.append(("hs", typ, (1,), 1))
     for pos in range(2):
       for kind in OTHERS: out.append(("inter", typ, (1,), pos, kind))
   return out
@@ -642,7 +698,8 @@ def _rank (replay):
 def describe (sc):
   fam, typ, comp = sc[0], sc[1], tuple(sc[2])
   s = "%s %s reply A cut into parts of %r entries" % (fam, TNAME[typ], comp)
-  if fam == "inter": s += ", one %s message at position %d" % (sc[4], sc[3])
+  if fam == "hs": s += ", the first %d part(s) in the same read as the barrier reply that completes the handshake" % sc[3]
+  elif fam == "inter": s += ", one %s message at position %d" % (sc[4], sc[3])
   elif fam == "inter-all": s += ", another message before, between and after all parts"
   elif fam == "seq": s += ", second reply B (%s) %s it" % (sc[3], sc[4])
   elif fam == "abort": s += ", complete reply B (%s) after part %d of A, then the rest of A" % (sc[3], sc[4])
@@ -695,23 +752,28 @@ def run (cfg):
     "PORT VIEW: breadth-first search with state matching to CLOSURE (empty frontier) over port-status histories on a real "
     "of_01.Connection after a byte-level handshake reporting ports {1,2,3}: {add, modify} x port {1,2,3,4} x the first k of the "
     "descriptions {original, renamed, new hw address, link-down} and delete x port {1,2,3,4}, delivered after the handshake (k=%d) "
-    "and, separately, between features reply and barrier reply (deferred by POX, k=%d); canonical state = real (_ports,_masks) of connection.ports + "
-    "real original collection + reference dict; in every state len/keys/iter/iterkeys/values/itervalues/items/iteritems and "
+    "with 'read the whole view' as an operation of its own (reads may populate caches), and, separately, between features reply and "
+    "barrier reply (deferred by POX, k=%d) and in the SAME read() as the barrier reply that completes the handshake (k=%d); canonical "
+    "state = every attribute of the real connection.ports and original_ports objects (sets, masks, any index/cache, aliasing) + "
+    "reference dict; in every state len/keys/iter/iterkeys/values/itervalues/items/iteritems and "
     "[] / in / has_key / get by 7 numbers, 10 names and 9 hardware addresses (stale ones included) on ports and original_ports "
     "are compared with a dict.  STATISTICS: for FLOW/TABLE/PORT/QUEUE every weak composition of n<=%d fingerprinted entries "
-    "into 1..6 parts (MORE on all but the last), delivered part by part and in one read; one echo/port-status/barrier message at "
+    "into 1..6 parts (MORE on all but the last), delivered part by part, in one read, and with the first j parts in the same read as the handshake-completing barrier reply; one echo/port-status/barrier message at "
     "every position and one in every gap; a second reply B (same/other type, same/other xid, 1-2 parts, DESC, AGGREGATE) before "
     "and after; B complete after part i of A for every i (A1 B A2) and after an A that never finishes; distinct = "
-    "(family, stats type, per-delivery event trace)" % (plan["up"], plan["early"], nmax))
+    "(family, stats type, per-delivery event trace)" % (plan["up"], plan["early"], plan["same-read"], nmax))
   rep.bound = dict(port_numbers=list(NUMS), descriptions=plan, port_history_length="unbounded (closure)",
                    stats_entries_max=nmax, stats_parts_max=MAX_PARTS)
   rep.assumptions = [
     "port descriptions of different ports never share a name or hardware address (lookups would be ambiguous)",
     "add of a known port / modify of an unknown port are applied as 'set description' in the reference",
-    "queries are checked not to change the PortCollection (state key before = after), so states with failed queries are still expanded",
+    "queries are checked not to change the content of the PortCollection, so states with failed queries are still expanded; "
+    "hidden state that reads create (caches) is part of the state key and reached through the explicit read operation",
+    "notifications deferred during the handshake / coalesced with the barrier reply are applied one after the other by the same "
+    "handler, so the state they lead to is keyed after the handshake completed (modes are separate searches)",
     "for a reply interrupted by another request's reply the specification gives no reassembly rule: its event may fire "
     "at most once, at its final part, with its own entries in order; the interrupting complete reply must be delivered exactly",
-    "every scenario runs on a fresh connection; each message is its own read() except in the coalesced family",
+    "every scenario runs on a fresh connection; each message is its own read() except in the coalesced and hs families",
   ]
   return rep
 
